@@ -74,6 +74,19 @@ CLAIMS = {
         note="trusts clang AST/CFG, the extractor, thread-safety of boost/libstdc++ internals; std::function targets "
              "supplied by users are outside the claim",
         technique="static analysis: static-storage effect inventory + lockset by dominance over the call-graph closure"),
+    "C13": dict(
+        level="proof", engine="engine D (digits.py)",
+        text="Proof over all values of all eight integer types by exhaustive abstract evaluation of the source: "
+             "interval partition of the four digit-count decision trees over the complete unsigned range (P1), "
+             "partial evaluation of all 32 conversion wrappers with the inlined fall-through switch for every "
+             "possible digit count, the numeric value kept symbolic as a digit stream, yielding the exact cell "
+             "layout, NUL index, returned length and absence of stray writes (P2), negation in the same-width "
+             "unsigned type and dispatcher selection by sign and sizeof (P3). 542 obligations, all discharged; "
+             "covers all 2^64 64-bit values, which no enumeration reaches.",
+        note="trusted base: clang front end, the extractor and the symbolic interpreter cv/digits.py; -INT_MIN "
+             "wrap-around as produced by the repository's compilers; the text-to-value direction (std::strto*) "
+             "is not decided",
+        technique="static analysis: interval partition + partial evaluation (symbolic digit stream) of the AST"),
     "C20": dict(
         level="other", engine="engine E (effects.py)",
         text="Static lockset/dominance and initialisation-order analysis of every Singleton<T>::instance/reset and "
